@@ -15,7 +15,8 @@ RULE = (
     "domains compared are those of the function's lhs and rhs, and the token tested is the function's token. R2 explicit == inferred: every "
     "hand-written discriminant switch over symbol::ClockDomain sends Explicit and Inferred to equivalent arms (same target after payload "
     "binding), and every == / != on ClockDomain values has a payload-free constant variant (Implicit / None) on one side, since the derived "
-    "equality tells Explicit(a) from Inferred(a). R3 operand coverage: Op::eval_type_binary checks (x,y); Op::eval_type_ternary checks all three "
+    "equality tells Explicit(a) from Inferred(a); ClockDomain::merge returns an operand only where the other one is None or the returned one "
+    "is not None (None is the identity, so an operation with a constant never erases a domain). R3 operand coverage: Op::eval_type_binary checks (x,y); Op::eval_type_ternary checks all three "
     "pairs of (x,y,z); Op::eval_type_concatenation checks every element against the accumulated result; check_assign_clock_domain checks the "
     "destination against the source, against the current clock (always_ff) and against every enclosing condition domain. R4 propagation: "
     "the result's clock_domain written by those operator functions merges the domains of all operands. R5 reachability: each lowering "
@@ -209,6 +210,76 @@ def run(world, tier, info, only=None):
             n_sw += 1
     ck.floor("R2", "hand-written classifications of ClockDomain", n_sw, 5)
 
+    # ---------------- R2b merge keeps a domain: None is its identity ------------------------------------------
+    MG = CD + "::merge"
+    sm_ = w.fns[MG]
+    gm = Fn(w.mir(MG))
+    try:
+        mpaths = flow.enumerate_paths(gm, 0, gm.returns(), limit=5000)
+    except OverflowError:
+        mpaths = None
+    if mpaths is None:
+        ck.ob("R2", "merge/none-is-identity", None, site(sm_), "too many paths")
+    else:
+        bad = []
+        n_ret = 0
+        for path in mpaths:
+            env = {1: ("arg", 1), 2: ("arg", 2)}
+            disc = {}
+            facts_ = {}
+            ret = None
+            blocks = [b for b, _ in path] + [path[-1][1]] if path else [0]
+            edges = dict(path)
+            for b in blocks:
+                for st in gm.blocks[b]["s"]:
+                    if st[0] != "=":
+                        continue
+                    dst, rv = st[1], st[2]
+                    val = None
+                    if rv[0] == "use" and rv[1][0] != "k":
+                        pl = rv[1][1]
+                        base = env.get(pl[0])
+                        proj = [q for q in pl[1] if q != "*"]
+                        if not proj:
+                            val = base
+                        elif base and base[0] == "tuple" and len(proj) == 1 and proj[0][0] == "f":
+                            val = base[1][int(proj[0][2])] if int(proj[0][2]) < len(base[1]) else None
+                    elif rv[0] in ("ref", "ptr"):
+                        pl = rv[2]
+                        base = env.get(pl[0])
+                        proj = [q for q in pl[1] if q != "*"]
+                        val = base if not proj else None
+                    elif rv[0] == "agg" and rv[1] == "tuple":
+                        val = ("tuple", [env.get(o[1][0]) if o[0] != "k" and not o[1][1] else None for o in rv[2]])
+                    elif rv[0] == "discr":
+                        pl = rv[1]
+                        if not [q for q in pl[1] if q != "*"]:
+                            disc[dst[0]] = env.get(pl[0])
+                    if not dst[1]:
+                        if dst[0] == 0:
+                            ret = val
+                        else:
+                            env[dst[0]] = val
+                t = gm.blocks[b]["t"]
+                if t["t"] == "sw" and t.get("enum") and b in edges and t["on"][0] != "k":
+                    who = disc.get(t["on"][1][0])
+                    hit = [vn for v, tgt, vn in t["vals"] if tgt == edges[b]]
+                    if who and who[0] == "arg":
+                        if len(hit) == 1 and edges[b] != t["else"]:
+                            facts_[who[1]] = ("is", hit[0])
+                        elif edges[b] == t["else"]:
+                            facts_[who[1]] = ("not", tuple(vn for v, tgt, vn in t["vals"]))
+            if ret is None or ret[0] != "arg":
+                continue
+            n_ret += 1
+            me, oth = ret[1], (2 if ret[1] == 1 else 1)
+            other_none = facts_.get(oth) == ("is", "None")
+            me_not_none = facts_.get(me, ("?",))[0] == "not" and "None" in facts_[me][1] or (facts_.get(me, ("?",))[0] == "is" and facts_[me][1] != "None")
+            if not (other_none or me_not_none):
+                bad.append("returns %s where %s may be None while %s is not" % (gm.name(me), gm.name(me), gm.name(oth)))
+        ck.ob("R2", "merge/none-is-identity", n_ret > 0 and not bad, site(sm_),
+              "merge returns an operand only when the other one is None or the returned one is not None (None is the identity; %d return paths)" % n_ret if n_ret and not bad else
+              "merge can drop a domain: %s; the merged value then carries no domain and later crossings go unreported" % sorted(set(bad))[:2])
     # ---------------- R3 / R4 operand coverage and propagation ------------------------------------------------
     def pairs_checked(g):
         out = []
@@ -218,18 +289,36 @@ def run(world, tier, info, only=None):
             out.append((a, b, bi, t))
         return out
 
-    def argname(g, rp):
+    def argnames(g, rp):
+        """parameter name(s) an operand stands for; a loop variable over an array literal `[y, z]` stands for each element"""
         r, pth = rp
         if r[0] == "arg" and pth == ():
-            return g.name(r[1])
-        return None
+            return [g.name(r[1])]
+        if r[0] == "call" and re.search(r"Iterator>::next$", r[1] or "") and pth[:2] == ("Some", "0") and len(pth) == 2:
+            nt = g.blocks[r[2]]["t"]
+            rr, pp = flow.access_path(g, nt["args"][0])
+            if rr[0] == "agg" and rr[1] == "array":
+                st = g.blocks[rr[2]]["s"][rr[3]]
+                out = []
+                for o in st[2][2]:
+                    out += argnames(g, flow.access_path(g, o))
+                return out
+        return [None]
+
+    def argname(g, rp):
+        ns = argnames(g, rp)
+        return ns[0] if len(ns) == 1 else None
     for fn_name, need in ((OP + "eval_type_binary", [("x", "y")]), (OP + "eval_type_ternary", [("x", "y"), ("x", "z"), ("y", "z")])):
         if fn_name not in w.fns:
             ck.missing("R3", fn_name)
             continue
         sm = w.fns[fn_name]
         g = Fn(w.mir(fn_name))
-        got = {frozenset((argname(g, a), argname(g, b))) for a, b, _, _ in pairs_checked(g)}
+        got = set()
+        for a, b, _, _ in pairs_checked(g):
+            for na in argnames(g, a):
+                for nb in argnames(g, b):
+                    got.add(frozenset((na, nb)))
         for x, y in need:
             ck.ob("R3", "%s/pair:%s-%s" % (fn_name.split("::")[-1], x, y), frozenset((x, y)) in got, site(sm),
                   "operands %s and %s are checked against each other" % (x, y) if frozenset((x, y)) in got else
@@ -346,8 +435,15 @@ def _propagation(ck, w, g, sm, short, ops, need_call_merge=False):
         for x in pv:
             if x[0] == "arg" and any(p[0] == "f" and p[1] == "clock_domain" for p in x[2]):
                 covered.add(g.name(x[1]))
-            if x[0] == "arg" and x[2] == ():
-                pass
+            if x[0] == "call" and re.search(r"Iterator>::next$", x[1] or ""):
+                # a loop variable over an array literal of operands: `for branch in [y, z] { dst = dst.merge(&branch.clock_domain) }`
+                nt = g.blocks[x[2]]["t"]
+                rr, pp = flow.access_path(g, nt["args"][0])
+                if rr[0] == "agg" and rr[1] == "array":
+                    for o in g.blocks[rr[2]]["s"][rr[3]][2][2]:
+                        ro, po = flow.access_path(g, o)
+                        if ro[0] == "arg":
+                            covered.add(g.name(ro[1]))
     if need_call_merge:
         ck.ob("R4", short + "/propagates-domain", merged, site(sm, ws[0][2][3]), "the accumulated result domain is merged with each element's domain")
         return
